@@ -494,6 +494,22 @@ class ValGen:
                 v = self.of_len(d, n)
                 if v is not NOVALUE:
                     out.append(v)
+            if d.get("uniq") and k in ("seqAny", "seqOf", "tupleOf"):
+                # uniqueItems over UNHASHABLE elements that are == but spelled differently (and so have a
+                # different repr / key order), next to hashable ==-equal ones of different type
+                item = d.get("item", {"k": "anything"})
+                tag = "t" if k == "tupleOf" else ("q" if d.get("seq") == "deque" else "l")
+                groups = []
+                if item["k"] in ("anything", "seqAny") or (item["k"] == "seqOf" and item["item"]["k"] in ("number", "anything", "float")):
+                    groups += [[{"l": [1]}, {"l": [fl(Fraction(1))]}], [{"l": [True]}, {"l": [1]}, {"l": [2]}],
+                               [{"l": [1, 2]}, {"l": [1, 2]}], [{"l": [1]}, {"l": [2]}]]
+                if item["k"] in ("anything", "mapAny"):
+                    groups += [[{"m": [["a", 1], ["b", 2]]}, {"m": [["b", 2], ["a", 1]]}],
+                               [{"m": [["a", 1]]}, {"m": [["a", fl(Fraction(1))]]}], [{"m": [["a", 1]]}, {"m": [["a", 2]]}]]
+                if item["k"] == "anything":
+                    groups += [[1, fl(Fraction(1)), {"l": []}], [True, 1, {"m": []}], [0, False], [1, 2, {"l": []}]]
+                for g in groups:
+                    out.append({tag: g})
             return out
         if k == "enumCls":
             # every member of the class by name and by value (also the ones a restricted field
